@@ -38,9 +38,17 @@ Parts(e) ==
                         \E x \in TEx : /\ PName(x.src) = e.edges[i].src /\ PName(x.dst) = e.edges[i].dst
                                         /\ x.w = e.edges[i].w
                                         /\ AbsI(x.w) >= e.ec
+      \* text: every direct edge at or above the cutoff is listed (under the reading Zx)
+      AllListed(TEx, Zx) == e.form = "tree" =>
+                   \A x \in TEx : (AbsI(x.w) >= e.ec /\ NoBypassZ(e.samples, e.cfg, K, Zx, x.src, x.dst)) =>
+                      \E i \in DOMAIN e.edges : e.edges[i].src = PName(x.src) /\ e.edges[i].dst = PName(x.dst)
       cutOK == EdgesOK(TrimEdgesDZ(e.samples, e.cfg, K, Z0))
       brOK == Z0 # {} /\ EdgesOK(TrimEdgesDZ(e.samples, e.cfg, K, {}))
-      Z == IF cutOK \/ ~brOK THEN Z0 ELSE {}
+      \* a reading explains the report when the edges shown are its edges AND none of its edges is missing (the bridged
+      \* weight of an edge may fall below the edge cutoff, so the known finding also shows as an edge that is absent)
+      cutAll == cutOK /\ AllListed(TrimEdgesDZ(e.samples, e.cfg, K, Z0), Z0)
+      brAll == brOK /\ AllListed(TrimEdgesDZ(e.samples, e.cfg, K, {}), {})
+      Z == IF cutAll \/ ~brAll THEN Z0 ELSE {}
       TE == TrimEdgesDZ(e.samples, e.cfg, K, Z)
   IN
   [ op       |-> e.op = "trim",
@@ -53,13 +61,11 @@ Parts(e) ==
                    \E r \in S : PName(r.e) = e.nodes[i].name /\ r.flat = e.nodes[i].flat /\ r.cum = e.nodes[i].cum,
     account  |-> e.shown = FoldSet(LAMBDA r, acc : acc + r.flat, 0, S),
     edges    |-> cutOK \/ brOK,
-    zerobridge |-> cutOK \/ ~brOK,
+    zerobridge |-> cutAll \/ ~brAll,
     residual |-> \A i \in DOMAIN e.edges :
                    \A x \in TE : (PName(x.src) = e.edges[i].src /\ PName(x.dst) = e.edges[i].dst)
                                   => ResidualOKZ(e.samples, e.cfg, K, Z, x.src, x.dst, e.edges[i].res),
-    alledges |-> e.form = "tree" =>                                              \* text: every direct edge at or above the cutoff is there
-                   \A x \in TE : (AbsI(x.w) >= e.ec /\ NoBypassZ(e.samples, e.cfg, K, Z, x.src, x.dst)) =>
-                      \E i \in DOMAIN e.edges : e.edges[i].src = PName(x.src) /\ e.edges[i].dst = PName(x.dst) ]
+    alledges |-> AllListed(TE, Z) ]
 Failed(e) == LET p == Parts(e) IN {f \in DOMAIN p : ~p[f]}
 
 TInit == l = 1 /\ bad = {}
